@@ -1,7 +1,8 @@
 """C17 - ensemble structures: determinism and wiring agreement (X4, W7)."""
 import ast
 
-from ..model import (AnalysisError, dotted, norm_text, names_read, const_value)
+from ..model import (AnalysisError, dotted, norm_text, names_read, const_value,
+                     fold_ifexp)
 from ..cfg import CFG, structural_guards
 from ..rules import rng
 from ..rules.wiring import FnCtx
@@ -137,22 +138,42 @@ def _w7_structure(prog, res):
             'their input index lists',
             'the grouping dict is not keyed by the monotonicity tuple with the '
             'index list as value')
-  # 'increasing' -> 1, 'unconstrained' -> 0
+  # 'increasing' -> 1, 'unconstrained' -> 0: the statements of the loop over
+  # input keys are executed for each key (tests on input_key decided by the
+  # spelling evaluator) and the constant stored in `monotonicity` is read off
+  from ..rules import spelling
+  kl = [l for l in ast.walk(fn.node) if isinstance(l, ast.For) and dotted(
+      l.target) == 'input_key']
+  if not kl:
+    raise AnalysisError('%s: loop over input_key not found' % fn.qualname)
   m = {}
-  for st in ast.walk(fn.node):
-    if isinstance(st, ast.If) and isinstance(st.test, ast.Compare) and dotted(
-        st.test.left) == 'input_key':
-      cur = st
-      while True:
-        lit = const_value(cur.test.comparators[0])
-        for a in cur.body:
-          if isinstance(a, ast.Assign) and dotted(a.targets[0]) == \
-              'monotonicity':
-            m[lit] = const_value(a.value)
-        if len(cur.orelse) == 1 and isinstance(cur.orelse[0], ast.If):
-          cur = cur.orelse[0]
-        else:
-          break
+  for key in ('unconstrained', 'increasing'):
+    ev = spelling.Ev('input_key', key)
+
+    def run(stmts):
+      for st in stmts:
+        st = fold_ifexp(st)
+        if isinstance(st, ast.If):
+          t = ev.truth(st.test)
+          if t is True:
+            if run(st.body):
+              return True
+          elif t is False:
+            if run(st.orelse):
+              return True
+          continue
+        if isinstance(st, ast.Raise):
+          m[key] = 'raises'
+          return True
+        if isinstance(st, ast.Assign) and dotted(st.targets[0]) == \
+            'monotonicity':
+          v = st.value
+          if isinstance(v, ast.IfExp):
+            t = ev.truth(v.test)
+            v = v.body if t is True else (v.orelse if t is False else v)
+          m[key] = const_value(v, None)
+      return False
+    run(kl[0].body)
   res.check(m == {'unconstrained': 0, 'increasing': 1}, 'W7',
             '%s|key->monotonicity' % fn.qualname, fn.loc(),
             "'increasing' inputs get monotonicity 1, 'unconstrained' 0",
@@ -482,19 +503,19 @@ def _w7_crystals(prog, res):
          if isinstance(c, ast.Call) and isinstance(c.func, ast.Attribute) and
          c.func.attr == 'sort' and dotted(c.func.value) ==
          'score_candidates_pairs']
-  pick = [a for a in ast.walk(fn.node) if isinstance(a, ast.Assign) and
-          dotted(a.targets[0]) == 'best_candidate_lattice_to_add_to']
-  good = False
-  if len(srt) == 1 and len(pick) == 1:
-    kw = {k.arg: k.value for k in srt[0].keywords}
-    rev = const_value(kw.get('reverse'), None) is True
-    v = pick[0].value
-    first = isinstance(v, ast.Subscript) and isinstance(
-        v.value, ast.Subscript) and dotted(v.value.value) == \
-        'score_candidates_pairs' and const_value(v.slice, None) == 1
-    idx = const_value(v.value.slice, None) if first else None
-    good = first and ((rev and idx == 0) or (not rev and idx == -1)) and \
-        'key' not in kw
+  # every read of the chosen lattice index: score_candidates_pairs[K][1]
+  pick = [v for v in ast.walk(fn.node) if isinstance(v, ast.Subscript) and
+          isinstance(v.value, ast.Subscript) and dotted(v.value.value) ==
+          'score_candidates_pairs' and const_value(v.slice, None) == 1]
+  if len(srt) != 1 or not pick:
+    raise AnalysisError('%s: the sort of score_candidates_pairs / the read '
+                        'of the chosen candidate was not found' % fn.qualname)
+  kw = {k.arg: k.value for k in srt[0].keywords}
+  rev = const_value(kw.get('reverse'), None) is True
+  good = 'key' not in kw
+  for v in pick:
+    idx = const_value(v.value.slice, None)
+    good = good and ((rev and idx == 0) or (not rev and idx == -1))
   res.check(good, 'W7', key + '|takes-best', fn.loc(pick[0] if pick else None),
             'the candidate with the highest (score, index) pair is chosen',
             'the placement no longer takes the highest scoring candidate '
